@@ -25,6 +25,7 @@ from ..mutant import Mutant
 from .common import delete_stmt, escape_closure, find_node, find_stmt, replace_node, rule, unwrap_try
 
 PROP = "C01"
+READY = True
 
 FRONT_ENTRIES: list[tuple[str | None, str, list[str]]] = [
     ("docutils", "parsers.docutils_:Parser.parse", []),
@@ -610,4 +611,40 @@ def mutants(corpus: Corpus):
     h = find_node(f, lambda n: isinstance(n, ast.ExceptHandler) and n.type is not None and unparse(n.type) == "MockingError")
     if h is not None:
         out.append(Mutant("c01-mockingerror-handler-narrowed", "C01.R1", base.rel, splice(base.src, h.type, "NotImplementedError"), expect="MockingError"))
+    # --- regressions of the repaired defects (each fix reverted) ---
+    for modname, q, tag in (("config.main", "read_topmatter", "topmatter"), ("mdit_to_docutils.base", "DocutilsRenderer.render_front_matter", "front-matter"), ("parsers.directives", "_parse_directive_options", "as-yaml")):
+        m = corpus.mod(modname)
+        f = m.func(q)
+        h = find_node(f, lambda n: isinstance(n, ast.ExceptHandler) and n.type is not None and "YAMLError" in unparse(n.type))
+        if h is not None:
+            out.append(Mutant(f"c01-yaml-handler-narrowed-{tag}", "C01.R1", m.rel, splice(m.src, h.type, "(yaml.parser.ParserError, yaml.scanner.ScannerError)"), expect="yaml.safe_load", canary=(tag == "topmatter")))
+    om = corpus.mod("parsers.options")
+    f = om.func("_scan_flow_scalar_non_spaces")
+    iff = find_node(f, lambda n: isinstance(n, ast.If) and unparse(n.test).startswith("code >"))
+    if iff is not None:
+        out.append(Mutant("c01-chr-range-check-dropped", "C01.R1", om.rel, splice(om.src, iff.test, "False"), expect="chr(code)"))
+    f = base.func("DocutilsRenderer.dict_to_fm_field_list")
+    h = find_node(f, lambda n: isinstance(n, ast.ExceptHandler) and n.type is not None and "TypeError" in unparse(n.type))
+    if h is not None:
+        out.append(Mutant("c01-json-dumps-handler-narrowed", "C01.R1", base.rel, splice(base.src, h.type, "RecursionError"), expect="json.dumps"))
+    ph = corpus.mod("parsers.parse_html")
+    f = ph.func("Attribute.__getitem__")
+    r = find_node(f, lambda n: isinstance(n, ast.Return))
+    if r is not None and isinstance(r.value, ast.BoolOp):
+        out.append(Mutant("c01-attr-none-coalescing-dropped", "C01.R3", ph.rel, splice(ph.src, r.value, unparse(r.value.values[0])), expect="__getitem__"))
+    dm = corpus.mod("parsers.directives")
+    f = dm.func("_parse_directive_options")
+    for n in walk_local(f.node):
+        if isinstance(n, ast.Try) and any("converter(" in unparse(b) for b in n.body):
+            h = n.handlers[0]
+            out.append(Mutant("c01-converter-handler-narrowed", "C01.R1", dm.rel, splice(dm.src, h.type, "(ValueError, TypeError)"), expect="converter(value)"))
+    sm = corpus.mod("mdit_to_docutils.sphinx_")
+    f = sm.func("SphinxRenderer.render_link_unknown")
+    for n in walk_local(f.node):
+        if isinstance(n, ast.Try) and any("is_file" in unparse(b) for b in n.body):
+            out.append(Mutant("c01-is-file-handler-narrowed", "C01.R1", sm.rel, splice(sm.src, n.handlers[0].type, "FileNotFoundError"), expect="is_file"))
+    f = mk.func("MockIncludeDirective.run")
+    iff = find_node(f, lambda n: isinstance(n, ast.If) and "myst_include_stack" in unparse(n.test) and " in " in unparse(n.test))
+    if iff is not None:
+        out.append(Mutant("c01-include-cycle-guard-dropped", "C01.R4", mk.rel, splice(mk.src, iff.body[-1], "pass"), expect="file content"))
     return out
